@@ -19,6 +19,7 @@ apart, rendered in m, cm, mm, in, ft; (b) the same real methods driven on a
 Reactor shell (object.__new__) with injected step requirements from 1e-8 m to
 0.2 m on short cores; (c) a fixed grid over the named stress sub-space.
 """
+import os
 import math
 import copy
 import numpy as np
@@ -1050,6 +1051,11 @@ def cases(tier, seed):
         out.append({'name': 'shell-%d' % i, 'kind': 'shell', 'n': 12,
                     'nmax': 20000 if quick else 200000,
                     'seed': [seed, 4, i]})
+    for i in range(10 if quick else 150):
+        # several time points (power files with different axial meshes),
+        # one model per time point built from the same parsed input
+        out.append({'name': 'timepoints-%d' % i, 'kind': 'timepoints',
+                    'seed': [seed, 6, i]})
     rng = np.random.default_rng([seed, 5])
     npt = 2 if quick else 8
     for d in DELTAS:
@@ -1062,10 +1068,83 @@ def cases(tier, seed):
     return out
 
 
+def run_timepoints(case, res):
+    """One parsed input, two or three time points whose power files have
+    different axial meshes, one Reactor per time point (in a random order):
+    the planes of every model contain the power-mesh boundaries of ITS time
+    point."""
+    rng = np.random.default_rng(case['seed'])
+    sub = dict(case, kind=('single' if rng.random() < 0.6 else 'core'))
+    P, feats, unit, rng = build_real_problem(sub)
+    P['setup'].pop('axial_mesh_size', None)
+    Pu = to_units(P, unit)
+    n_tp = int(rng.integers(2, 4))
+    key = {'kind': 'timepoints', 'unit': unit, 'stress': feats['stress'],
+           'd': feats['d']}
+    res.tag('unit=' + unit)
+    with drive.scratch() as wd:
+        path = gen.render(Pu, wd)
+        variants = [Pu]
+        names = ['power.csv']
+        for i in range(1, n_tp):
+            Qi = copy.deepcopy(Pu)
+            L = P['length']
+            inner = sorted(set(float(x) for x in np.round(
+                rng.uniform(0.05, 0.95, int(rng.integers(1, 5))) * L, 4)))
+            Qi['power']['zb'] = [0.0] + inner + [L]
+            for sp in Qi['power']['asm'].values():
+                sp.pop('zb', None)
+                sp['axial'] = [1.0] * (len(Qi['power']['zb']) - 1)
+                sp['zero_cells'] = []
+                sp['zero_pin_cells'] = []
+            nm = 'power_tp%d.csv' % (i + 1)
+            gen.write_power_csv(Qi, os.path.join(wd, nm))
+            names.append(nm)
+            variants.append(Qi)
+        txt = open(path).read().replace('user_power = power.csv',
+                                        'user_power = ' + ', '.join(names))
+        open(path, 'w').write(txt)
+        try:
+            inp = drive.read_input(path)
+        except drive.Rejected as e:
+            res.status('rejected', str(e))
+            res.tag('rejected:' + e.stage)
+            return
+        order = [int(x) for x in rng.permutation(n_tp)]
+        if rng.random() < 0.5:
+            order = list(range(n_tp))        # the order of a serial run
+        for t in order:
+            expected, L_in = expected_boundaries(variants[t])
+            with Hooks() as hk:
+                mon = MeshMonitor(hk)
+                try:
+                    r = drive.build_reactor(
+                        inp, timestep=t,
+                        path=os.path.join(wd, 'tp%d' % (t + 1)))
+                except NoProgress as e:
+                    no_progress(res, key, e, 'construction')
+                    return
+                except drive.Rejected as e:
+                    res.status('rejected', str(e))
+                    res.tag('rejected:' + e.stage)
+                    return
+                oracle(res, dict(key, timepoint=t + 1,
+                                 built_after=order.index(t)), mon, expected,
+                       L_in, 'none')
+        res.tag('timepoints=%d' % n_tp)
+        res.tag('order=' + ('serial' if order == list(range(n_tp))
+                            else 'shuffled'))
+        res.nontrivial('timepoints/%s/%d/%s' % (unit, n_tp,
+                                                case['seed'][-1]))
+        res.sample({'case': case, 'features': feats, 'order': order})
+
+
 def run_case(case):
     res = Result(case)
     try:
-        if case['kind'] in ('single', 'core'):
+        if case['kind'] == 'timepoints':
+            run_timepoints(case, res)
+        elif case['kind'] in ('single', 'core'):
             run_real(case, res)
         elif case['kind'] == 'shell':
             run_shell(case, res)
